@@ -95,6 +95,11 @@ CHECKS = {
         technique="TLA+ Pauli-frame specification (BellFrame.tla: Deliver / Pauli / Mov / Use / End per physical qubit, stabiliser statistics for measure-directly); every keep-type API variant is executed on the real SDK -> controller -> executor against a scripted link for all Bell-state tuples and the executor's gate log is validated as a trace by TLC",
         text="For each variant (recv/create keep, with info, post routine keeping or measuring the qubit, sequential, sequential with classical feed-forward, recv_rsp, recv_rsp_with_info) x generic / single-communication-qubit hardware x role x expect_phi_plus x 1..3 (thorough: 4) pairs x ALL Bell-state tuples x 0..2 other live qubits the real subroutine runs; TLC replays deliveries, X/Z corrections, moves and the application's first own operation per physical qubit and checks that pair i's accumulated Pauli equals the one its Bell state demands when the application first sees it (or at the end), that no correction touches another qubit, and that nothing is corrected for creators or with the expectation off. Measure-directly: create_measure and recv_measure run end to end for 4 Bell states x 6 named bases x expectation on/off x 4 raw outcome pairs; TLC judges the post-processed pairs against the Phi+ stabiliser statistics (parity and uniformity on the support of the delivered state), both for recv_measure as it is and for the result object when it is given the bases.",
         note="Trusted: TLC, the rig's link (harness/rig.py AutoLink), the mapping of rot_x/rot_z 16 4 to X/Z. recv_context has no expectation switch and is out of scope. Traces that the SDK refuses or that fault for qubit-management reasons (NV relocation with several pairs; property C09's known findings) are not judged and counted in the evidence notes. One defect repaired in /repo (corrections before a post routine); two recorded as known findings (keep corrections aimed at virtual qubit 0: pinned by the test-suite text; recv_measure post-processes as if the basis were Z: needs an API change)."),
+    "C11": dict(
+        engine="c11", category="model_checking", design="5 C11",
+        technique="TLA+ specification of what must arrive at the other end of the request and result paths (EprFields.tla: Expected / QExpected / Source); requests built by every create-type API on the real SDK run on the real controller and the LinkLayerCreate received by a recording stack plus its real link-layer 1.0 conversion are validated by TLC; scripted responses with distinct values in every field are read back through every result handle and validated by TLC",
+        text="Requests: create_keep (plain, with info, post routine, sequential, context), create_measure, create_rsp and the generic create() for K/M/R x 1..3 pairs x six time unit/limit combinations x all named bases on both sides x rotation triples (boundaries, every single-slot value 0..31 in the thorough tier, random triples) x every random-basis set on both sides x two remote nodes / socket ids: TLC compares all 22 LinkLayerCreate fields with Expected(p), requires the real request_to_qlink_1_0 to accept the request, and compares every field of the converted request. Results: 13 create/recv APIs x 1..3 pairs, alone and two per subroutine on different sockets and nodes (recv streams offered before the matching instruction runs), with responses whose create id, physical qubit, sequence number, goodness, time, Bell state, outcome and basis all differ per pair: every field of every qubit's entanglement info, the physical qubit behind qubit i, and every attribute of EprKeepResult / EprMeasureResult are read after the flush and TLC checks each equals the field of pair i's response that Source names.",
+        note="Trusted: TLC, the recording stack and scripted link of harness/rig.py, the installed qlink_interface package. Receive calls send nothing to the stack in this code base; their socket and node ids are covered through routing of the responses. min_fidelity_all_at_end / max_tries wrap the request in a retry loop and are not varied. Two defects repaired in /repo (random-basis enums, R-type conversion)."),
 }
 
 REASON_TODO = "check not built yet (work in progress; see DESIGN.md section 9)"
